@@ -172,7 +172,12 @@ func VMap(k, v *T, kvs ...[2]*V) *V {
 }
 func VStrMap(kvs ...[2]*V) *V { return VMap(TStr, TAny, kvs...) }
 func VMapSlice(kvs ...[2]*V) *V { return &V{Kind: 'S', KVs: kvs} }
-func VKeyed(fs ...Field) *V { return &V{Kind: 'K', Fs: fs} }
+func VKeyed(fs ...Field) *V {
+	// an IterationKeyedMap is a Go map: the canonical field order is sorted by key
+	fs = append([]Field(nil), fs...)
+	sort.SliceStable(fs, func(i, j int) bool { return fs[i].Name < fs[j].Name })
+	return &V{Kind: 'K', Fs: fs}
+}
 func VRange(a, b int64) *V { return &V{Kind: 'R', A: a, B: b} }
 func VPtr(v *V) *V         { return &V{Kind: 'P', In: v} }
 func VNilPtr() *V          { return &V{Kind: 'N'} }
